@@ -497,9 +497,11 @@ uint8_t fgetcx(FILE* f) {
 }
 
 std::string fgets(FILE* f) {
+  static const size_t block_size = 0x100;
+
   deque<std::string> blocks;
   for (;;) {
-    std::string& block = blocks.emplace_back(0x100, '\0');
+    std::string& block = blocks.emplace_back(block_size, '\0');
     if (!::fgets(block.data(), block.size(), f)) {
       blocks.pop_back();
       if (::feof(f)) {
@@ -508,9 +510,12 @@ std::string fgets(FILE* f) {
         throw io_error(fileno(f), "cannot read from stream");
       }
     }
+    // ::fgets stores at most (block_size - 1) characters followed by a \0, so
+    // the line continues in the next block only if this block is full and
+    // does not end with a newline
     size_t block_bytes = strlen(block.c_str());
-    if ((block_bytes < 0x100) || (block[0xFF] == '\n')) {
-      block.resize(block_bytes);
+    block.resize(block_bytes);
+    if ((block_bytes < block_size - 1) || (block[block_bytes - 1] == '\n')) {
       break; // The line ends at the end of this block
     }
   }
